@@ -31,7 +31,9 @@ import (
 	apierrors "k8s.io/apimachinery/pkg/api/errors"
 	"k8s.io/client-go/tools/leaderelection/resourcelock"
 
+	"github.com/kubewharf/kubebrain/pkg/backend"
 	"github.com/kubewharf/kubebrain/pkg/backend/election"
+	"github.com/kubewharf/kubebrain/pkg/server/service/leader"
 	"github.com/kubewharf/kubebrain/pkg/storage"
 )
 
@@ -39,7 +41,17 @@ type electionSuite struct {
 	kv    storage.KvStorage
 	key   []byte
 	locks []resourcelock.Interface
+	// nodes[i] = the real pkg/server/service/leader object of candidate i (it shares candidate i's lock, as in a node)
+	nodes []leader.LeaderElection
 }
+
+// lockOnlyBackend is what leader.NewLeaderElection needs of a backend: its resource lock
+type lockOnlyBackend struct {
+	backend.Backend
+	l resourcelock.Interface
+}
+
+func (b lockOnlyBackend) GetResourceLock() resourcelock.Interface { return b.l }
 
 func newElectionSuite(opts map[string]string) *electionSuite {
 	n := 2
@@ -58,6 +70,8 @@ func newElectionSuite(opts map[string]string) *electionSuite {
 			Timeout:  20 * time.Second,
 		}, s.kv)
 		s.locks = append(s.locks, m.GetResourceLock())
+		s.nodes = append(s.nodes, leader.NewLeaderElection(lockOnlyBackend{l: m.GetResourceLock()}, getMetrics(),
+			func(context.Context) {}, func() {}))
 	}
 	return s
 }
@@ -109,7 +123,7 @@ func (s *electionSuite) do(t []string) string {
 		return s.race(t)
 	}
 	switch t[0] {
-	case "get", "create", "update", "init":
+	case "get", "create", "update", "init", "info":
 	default:
 		return t[0] + " bad-op"
 	}
@@ -144,6 +158,16 @@ func (s *electionSuite) do(t []string) string {
 			return fmt.Sprintf("update %s bad-record", t[1])
 		}
 		return fmt.Sprintf("update %s %s", t[1], electionErr(l.Update(ler)))
+	case "info":
+		// the node's read-only endpoints (HTTP /election, peer /status, the follower's leader lookup) while the
+		// elector is between two of its steps: they must not act on the lock
+		_, err := s.nodes[i].GetElectionInfo()
+		_ = s.nodes[i].GetLeaderInfo()
+		_ = s.nodes[i].IsLeader()
+		if err != nil {
+			return fmt.Sprintf("info %s err", t[1])
+		}
+		return fmt.Sprintf("info %s ok", t[1])
 	case "init":
 		// Describe() = "<holder|empty>,<tso>"
 		d := l.Describe()
